@@ -57,12 +57,20 @@ package ast
 //@ ghost var $asgVarSnap array[Ref]RV
 //@ ghost var $exprRes array[Ref]RV      // last successful result of Expression.Evaluate, per node
 //@ ghost var $varRes array[Ref]RV       // last successful result of Variable.Evaluate, per node
+//@ ghost var $atomRes array[Ref]RV      // last successful result of ExpressionAtom.Evaluate, per node
 //@ ghost var $thenN int                 // log of executed then-statements, in order
 //@ ghost var $thenSeq array[int]Ref
 //@ modset setlog = $setN, $setKind, $setNode, $setField, $setIndex, $setSel, $setVal, $addN, $addKey, $addObj, $addFailed
-//@ modset actlog = @setlog, $asgN, $asgVar, $asgVal, $asgExprSnap, $asgVarSnap, $exprRes, $varRes
+//@ modset asglog = $asgN, $asgVar, $asgVal, $asgExprSnap, $asgVarSnap
+//@ modset actlog = @setlog, @asglog, $exprRes, $varRes, $atomRes
 //@ modset thenlog = $thenN, $thenSeq
-//@ modset actions = @memo, @actlog, $loc, RuleEntry.Retracted, $complete, DataContext.complete, DataContext.retracted, DataContext.variableChangeCount, DataContext.ruleEntry, map[string]model.ValueNode
+//@ ghost var $resetAllN int             // calls of WorkingMemory.ResetAll (C13: once per run, in the prologue)
+//@ ghost var $depth int                 // nesting depth of Expression.Evaluate calls
+//@ ghost var $inAction bool             // inside ThenScope.Execute
+// engine-visible state that only a STATEMENT-LEVEL function call of an action may change (A-NESTED / T-USER: function calls
+// nested inside expressions, and everything evaluated for a condition, are side-effect free on this state)
+//@ modset userstate = $loc, RuleEntry.Retracted, $complete, DataContext.complete, DataContext.retracted, DataContext.variableChangeCount, DataContext.ruleEntry, map[string]model.ValueNode
+//@ modset actions = @memo, @actlog, @userstate
 
 //@ macro func active(re *RuleEntry) bool { return !re.Retracted && !re.Deleted }
 //@ extern pure func ctxErrRoot(ctx Ref) Ref
@@ -128,6 +136,7 @@ package ast
 //@   serves C08 C01 C13
 //@   requires workingMem != nil && WMInv(workingMem)
 //@   nopanic
+//@   ghost_entry $resetAllN = $resetAllN + 1
 //@   modifies Expression.Evaluated, ExpressionAtom.Evaluated
 //@   ensures memoClear(workingMem)
 //@   invariant@1 forall j int :: 0 <= j && j < $i ==> !workingMem.expressionSnapshotMap[$keys[j]].Evaluated
@@ -164,20 +173,73 @@ package ast
 // ---------------------------------------------------------------------------------------------------------
 // RuleEntry.Evaluate / Execute: the engine-facing contracts (C01, C10, C14, C15)
 // ---------------------------------------------------------------------------------------------------------
-// ASSUMED for now (extern = not yet checked against its body): evaluation writes memo fields only, never forgets
-//@ extern func (e *Expression) Evaluate(dataContext, memory) (val, err)
-//@   modifies @memo, $exprRes
-//@   ensures forall x *Expression :: old(x.Evaluated) ==> x.Evaluated
-//@   ensures forall a *ExpressionAtom :: old(a.Evaluated) ==> a.Evaluated
-//@   ensures err == nil ==> $exprRes[e] == val
+// Expression.Evaluate, CHECKED against its body: memo discipline (C13, C14, C01) and operator dispatch (C05).
+//@ extern pure func fn_EvaluateAddition_0(l RV, r RV) RV
+//@ extern pure func fn_EvaluateSubtraction_0(l RV, r RV) RV
+//@ extern pure func fn_EvaluateMultiplication_0(l RV, r RV) RV
+//@ extern pure func fn_EvaluateDivision_0(l RV, r RV) RV
+//@ extern pure func fn_EvaluateLogicSingle_0(l RV) RV
+//@ extern pure func fnok_EvaluateLogicSingle(l RV) bool
+//@ extern pure func fn_EvaluateLogicAnd_0(l RV, r RV) RV
+//@ extern pure func fn_EvaluateLogicOr_0(l RV, r RV) RV
+//@ extern pure func fn_EvaluateModulo_0(l RV, r RV) RV
+//@ extern pure func fn_EvaluateBitAnd_0(l RV, r RV) RV
+//@ extern pure func fn_EvaluateBitOr_0(l RV, r RV) RV
+//@ extern pure func fn_EvaluateGreaterThan_0(l RV, r RV) RV
+//@ extern pure func fn_EvaluateLesserThan_0(l RV, r RV) RV
+//@ extern pure func fn_EvaluateGreaterThanEqual_0(l RV, r RV) RV
+//@ extern pure func fn_EvaluateLesserThanEqual_0(l RV, r RV) RV
+//@ extern pure func fn_EvaluateEqual_0(l RV, r RV) RV
+//@ extern pure func fn_EvaluateNotEqual_0(l RV, r RV) RV
+// the documented operator table: operator code -> operation (GRL_en.md); && and || are handled by shortCircuit below
+//@ pure func opResult(op int, l RV, r RV) RV { return ite(op == OpMul, fn_EvaluateMultiplication_0(l, r), ite(op == OpDiv, fn_EvaluateDivision_0(l, r), ite(op == OpMod, fn_EvaluateModulo_0(l, r),
+//@      ite(op == OpAdd, fn_EvaluateAddition_0(l, r), ite(op == OpSub, fn_EvaluateSubtraction_0(l, r), ite(op == OpBitAnd, fn_EvaluateBitAnd_0(l, r), ite(op == OpBitOr, fn_EvaluateBitOr_0(l, r),
+//@      ite(op == OpGT, fn_EvaluateGreaterThan_0(l, r), ite(op == OpLT, fn_EvaluateLesserThan_0(l, r), ite(op == OpGTE, fn_EvaluateGreaterThanEqual_0(l, r), ite(op == OpLTE, fn_EvaluateLesserThanEqual_0(l, r),
+//@      ite(op == OpEq, fn_EvaluateEqual_0(l, r), ite(op == OpNEq, fn_EvaluateNotEqual_0(l, r), ite(op == OpAnd, fn_EvaluateLogicAnd_0(l, r), fn_EvaluateLogicOr_0(l, r))))))))))))))) }
+// A-TREE: rule ASTs are finite DAGs. $height is a ghost rank that strictly decreases from a node to its children
+// (established by the parser / loader, preserved by Clone); every expression node has an atom, a single operand or two operands
+// (grammar); evaluation of a node touches only nodes of rank <= its own.
+//@ ghost var $height array[Ref]int
+//@ macro func lowerE(c *Expression, h int) bool { return c != nil ==> $height[c] < h }
+//@ macro func lowerA(c *ExpressionAtom, h int) bool { return c != nil ==> $height[c] < h }
+//@ macro func treeWF() bool { return forall x *Expression :: x != nil ==> (x.ExpressionAtom != nil || x.SingleExpression != nil || (x.LeftExpression != nil && x.RightExpression != nil)) && lowerE(x.LeftExpression, $height[x]) && lowerE(x.RightExpression, $height[x]) && lowerE(x.SingleExpression, $height[x]) && lowerA(x.ExpressionAtom, $height[x]) }
+//@ macro func aboveUntouched(h int) bool { return (forall x *Expression :: $height[x] > h ==> x.Evaluated == old(x.Evaluated) && x.Value == old(x.Value)) }
+//@ macro func isBinary(e *Expression) bool { return e.ExpressionAtom == nil && e.SingleExpression == nil && e.LeftExpression != nil && e.RightExpression != nil }
+//@ func (e *Expression) Evaluate(dataContext, memory) (val, err)
+//@   serves C01 C02 C05 C13 C14
+//@   requires $depth >= 0 && treeWF()
+//@   modifies @memo, $exprRes, $varRes, $atomRes
+//@   ensures receiver: e != nil
+//@   ensures rank: forall x *Expression :: $height[x] > $height[e] ==> x.Evaluated == old(x.Evaluated) && x.Value == old(x.Value)
+//@   ghost_entry $depth = $depth + 1
+//@   ghost_exit $depth = $depth - 1
+//@   ghost_exit $exprRes = ite(err == nil, store($exprRes, e, val), $exprRes)
+//@   ensures memohit: old(e.Evaluated) ==> err == nil && val == old(e.Value) && unchanged("memo")
+//@   ensures flagonlyonsuccess: e.Evaluated && !old(e.Evaluated) ==> err == nil && e.Value == val
+//@   ensures errorkeeps: err != nil ==> e.Evaluated == old(e.Evaluated)
+//@   ensures monotone: (forall x *Expression :: old(x.Evaluated) ==> x.Evaluated && x.Value == old(x.Value)) && (forall a *ExpressionAtom :: old(a.Evaluated) ==> a.Evaluated && a.Value == old(a.Value))
+//@   ensures memoset: err == nil && (e.ExpressionAtom != nil || e.SingleExpression != nil || (e.LeftExpression != nil && e.RightExpression != nil)) ==> e.Evaluated
+//@   ensures[C05,C01] dispatch: !old(e.Evaluated) && err == nil && isBinary(e) && e.Operator != OpAnd && e.Operator != OpOr && 0 <= e.Operator && e.Operator <= OpOr
+//@        ==> e.LeftExpression.Evaluated && e.RightExpression.Evaluated && val == opResult(e.Operator, e.LeftExpression.Value, e.RightExpression.Value)
+//@   ensures[C05,C01] and: !old(e.Evaluated) && err == nil && isBinary(e) && e.Operator == OpAnd ==> e.LeftExpression.Evaluated
+//@        && ((fnok_EvaluateLogicSingle(e.LeftExpression.Value) && !fn_EvaluateLogicSingle_0(e.LeftExpression.Value).b) ==> val == fn_EvaluateLogicSingle_0(e.LeftExpression.Value))
+//@        && (!(fnok_EvaluateLogicSingle(e.LeftExpression.Value) && !fn_EvaluateLogicSingle_0(e.LeftExpression.Value).b) ==> e.RightExpression.Evaluated && val == fn_EvaluateLogicAnd_0(e.LeftExpression.Value, e.RightExpression.Value))
+//@   ensures[C05,C01] or: !old(e.Evaluated) && err == nil && isBinary(e) && e.Operator == OpOr ==> e.LeftExpression.Evaluated
+//@        && ((fnok_EvaluateLogicSingle(e.LeftExpression.Value) && fn_EvaluateLogicSingle_0(e.LeftExpression.Value).b) ==> val == fn_EvaluateLogicSingle_0(e.LeftExpression.Value))
+//@        && (!(fnok_EvaluateLogicSingle(e.LeftExpression.Value) && fn_EvaluateLogicSingle_0(e.LeftExpression.Value).b) ==> e.RightExpression.Evaluated && val == fn_EvaluateLogicOr_0(e.LeftExpression.Value, e.RightExpression.Value))
+//@   ensures[C05] negation: !old(e.Evaluated) && err == nil && e.ExpressionAtom == nil && e.SingleExpression != nil && e.Negated && e.SingleExpression.Value.kind == 1
+//@        ==> val.kind == 1 && val.b == !e.SingleExpression.Value.b
+//@   ensures[C01] atomvalue: !old(e.Evaluated) && err == nil && e.ExpressionAtom != nil ==> val == $atomRes[e.ExpressionAtom]
 //@ func (e *WhenScope) Evaluate(dataContext, memory) (val, err)
-//@   modifies @memo, $exprRes
+//@   requires $depth == 0 && treeWF()
+//@   modifies @memo, $exprRes, $varRes, $atomRes
 
 //@ func (e *RuleEntry) Evaluate(ctx, dataContext, memory) (can, err)
 //@   serves C01 C10 C14 C15
 //@   requires e != nil && ctx != nil
+//@   requires $depth == 0 && !$inAction && treeWF()
 //@   nopanic
-//@   modifies @memo, $exprRes, @ctxghost
+//@   modifies @memo, $exprRes, $varRes, $atomRes, @ctxghost
 //@   ensures err != nil ==> !can
 //@   ensures old(e.Retracted) ==> !can
 //@   ensures err != nil ==> err_mentions(err, e.RuleName)
@@ -189,11 +251,15 @@ package ast
 //@   ghost_exit $evalStamp = store($evalStamp, e, $stamp)
 //@   ghost_exit $evalCand = store($evalCand, e, can)
 //@   ghost_exit $evalFailed = $evalFailed || err != nil
+//@   ghost_exit $depth = 0
 //@   ghost_exit $sinceNilCheck = $sinceNilCheck + 1
 //@   ghost_exit $sinceExec = $sinceExec + 1
 
 //@ func (e *ThenScope) Execute(dataContext, memory) (err)
 //@   requires $sinceNilCheck == 0
+//@   requires $depth == 0 && treeWF()
+//@   ghost_entry $inAction = true
+//@   ghost_exit $inAction = false
 //@   modifies @actions, @thenlog
 //@   ensures forall re *RuleEntry :: old(re.Retracted) ==> re.Retracted
 //@   ensures forall d Ref :: old($complete[d]) ==> $complete[d]
@@ -203,6 +269,7 @@ package ast
 //@ func (e *RuleEntry) Execute(ctx, dataContext, memory) (err)
 //@   serves C14 C15 C10
 //@   requires e != nil && ctx != nil
+//@   requires $depth == 0 && treeWF()
 //@   nopanic
 //@   modifies @actions, @thenlog, @ctxghost
 //@   ensures forall re *RuleEntry :: old(re.Retracted) ==> re.Retracted
@@ -214,6 +281,8 @@ package ast
 //@   ghost_entry $runExec = $runExec + 1
 //@   ghost_entry $execStamp = $stamp
 //@   ghost_exit $actionFailed = err != nil
+//@   ghost_exit $inAction = false
+//@   ghost_exit $depth = 0
 //@   ghost_exit $sinceExec = 0
 
 //@ extern func context.Background() (c)
@@ -333,20 +402,25 @@ package ast
 
 // ASSUMED for now (extern): evaluation of variables / selectors / atoms; frames and monotonicity only
 //@ extern func (e *Variable) Evaluate(dataContext, memory) (val, err)
-//@   modifies @memo, $varRes
-//@   ensures forall x *Expression :: old(x.Evaluated) ==> x.Evaluated
-//@   ensures forall a *ExpressionAtom :: old(a.Evaluated) ==> a.Evaluated
+//@   modifies @memo, $varRes, $exprRes, $atomRes
+//@   ensures forall x *Expression :: old(x.Evaluated) ==> x.Evaluated && x.Value == old(x.Value)
+//@   ensures forall a *ExpressionAtom :: old(a.Evaluated) ==> a.Evaluated && a.Value == old(a.Value)
 //@   ensures err == nil ==> $varRes[e] == val
-//@   ensures forall v *Variable :: v != e && !(err == nil) ==> true
 //@ extern func (e *ArrayMapSelector) Evaluate(dataContext, memory) (val, err)
-//@   modifies @memo, $exprRes
-//@   ensures forall x *Expression :: old(x.Evaluated) ==> x.Evaluated
-//@   ensures forall a *ExpressionAtom :: old(a.Evaluated) ==> a.Evaluated
+//@   modifies @memo, $exprRes, $varRes, $atomRes
+//@   ensures forall x *Expression :: old(x.Evaluated) ==> x.Evaluated && x.Value == old(x.Value)
+//@   ensures forall a *ExpressionAtom :: old(a.Evaluated) ==> a.Evaluated && a.Value == old(a.Value)
 //@   ensures err == nil ==> e.Value == val
 //@ extern func (e *ExpressionAtom) Evaluate(dataContext, memory) (val, err)
 //@   modifies @actions
 //@   ensures forall re *RuleEntry :: old(re.Retracted) ==> re.Retracted
 //@   ensures forall d Ref :: old($complete[d]) ==> $complete[d]
+//@   ensures ($depth > 0 || !$inAction) ==> unchanged("userstate") && unchanged("setlog") && unchanged("asglog")
+//@   ensures forall x *Expression :: $height[x] >= $height[e] ==> x.Evaluated == old(x.Evaluated) && x.Value == old(x.Value)
+//@   ensures ($depth > 0 || !$inAction) ==> (forall x *Expression :: old(x.Evaluated) ==> x.Evaluated && x.Value == old(x.Value)) && (forall a *ExpressionAtom :: old(a.Evaluated) ==> a.Evaluated && a.Value == old(a.Value))
+//@   ensures old(e.Evaluated) ==> err == nil && val == old(e.Value) && unchanged("memo") && unchanged("userstate")
+//@   ensures e.Evaluated && !old(e.Evaluated) ==> err == nil && e.Value == val
+//@   ensures err == nil ==> $atomRes[e] == val
 //@   panic_ensures forall re *RuleEntry :: old(re.Retracted) ==> re.Retracted
 //@   panic_ensures forall d Ref :: old($complete[d]) ==> $complete[d]
 
@@ -371,7 +445,7 @@ package ast
 // of the addressed shape, and forgets every expression / atom filed under the assigned variable (and nothing else)
 //@ func (e *Variable) Assign(newVal, dataContext, memory) (err)
 //@   serves C01 C02 C04 C13
-//@   modifies @memo, @setlog, $loc, $varRes, $exprRes
+//@   modifies @memo, @setlog, $loc, $varRes, $exprRes, $atomRes
 //@   ghost_entry $asgN = $asgN + 1
 //@   ghost_entry $asgVar = e
 //@   ghost_entry $asgVal = newVal
@@ -384,28 +458,27 @@ package ast
 //@   ensures[C04] element: e.Variable != nil && len(e.Name) == 0 && err == nil ==> $setN == old($setN) + 1 && $setNode == e.Variable.ValueNode && $setVal == newVal && $addN == old($addN)
 //@        && (($setKind == 2 && $setIndex == rv_int(e.ArrayMapSelector.Value)) || ($setKind == 3 && $setSel == e.ArrayMapSelector.Value))
 //@   ensures[C04] atmostone: $setN + $addN <= old($setN) + old($addN) + 1
+//@   ensures valuestable: forall x *Expression :: old(x.Evaluated) ==> x.Value == old(x.Value)
 //@   ensures[C04] erroruntouched: err != nil ==> $loc == old($loc)
 
 // the five assignment forms: right-hand side first, then (for compound forms) the variable's current value, combined by
 // the operator the flag names, then exactly one Assign of that value to this statement's variable
-//@ extern pure func fn_EvaluateAddition_0(l RV, r RV) RV
-//@ extern pure func fn_EvaluateSubtraction_0(l RV, r RV) RV
-//@ extern pure func fn_EvaluateMultiplication_0(l RV, r RV) RV
-//@ extern pure func fn_EvaluateDivision_0(l RV, r RV) RV
 //@ func (e *Assignment) Execute(dataContext, memory) (err)
 //@   serves C04
-//@   modifies @memo, @setlog, $loc, $varRes, $exprRes, $asgN, $asgVar, $asgVal, $asgExprSnap, $asgVarSnap
-//@   ensures[C04] assign: err == nil && e.IsAssign ==> $asgN == old($asgN) + 1 && $asgVar == e.Variable && $asgVal == $asgExprSnap[e.Expression]
-//@   ensures[C04] plus: err == nil && !e.IsAssign && e.IsPlusAssign ==> $asgN == old($asgN) + 1 && $asgVar == e.Variable && $asgVal == fn_EvaluateAddition_0($asgVarSnap[e.Variable], $asgExprSnap[e.Expression])
-//@   ensures[C04] minus: err == nil && !e.IsAssign && !e.IsPlusAssign && e.IsMinusAssign ==> $asgN == old($asgN) + 1 && $asgVar == e.Variable && $asgVal == fn_EvaluateSubtraction_0($asgVarSnap[e.Variable], $asgExprSnap[e.Expression])
-//@   ensures[C04] mul: err == nil && !e.IsAssign && !e.IsPlusAssign && !e.IsMinusAssign && e.IsMulAssign ==> $asgN == old($asgN) + 1 && $asgVar == e.Variable && $asgVal == fn_EvaluateMultiplication_0($asgVarSnap[e.Variable], $asgExprSnap[e.Expression])
-//@   ensures[C04] div: err == nil && !e.IsAssign && !e.IsPlusAssign && !e.IsMinusAssign && !e.IsMulAssign && e.IsDivAssign ==> $asgN == old($asgN) + 1 && $asgVar == e.Variable && $asgVal == fn_EvaluateDivision_0($asgVarSnap[e.Variable], $asgExprSnap[e.Expression])
+//@   requires $depth == 0 && treeWF()
+//@   modifies @memo, @setlog, $loc, $varRes, $exprRes, $atomRes, $asgN, $asgVar, $asgVal, $asgExprSnap, $asgVarSnap
+//@   ensures[C04] assign: err == nil && e.IsAssign ==> $asgN == old($asgN) + 1 && $asgVar == e.Variable && $asgVal == e.Expression.Value
+//@   ensures[C04] plus: err == nil && !e.IsAssign && e.IsPlusAssign ==> $asgN == old($asgN) + 1 && $asgVar == e.Variable && $asgVal == fn_EvaluateAddition_0($asgVarSnap[e.Variable], e.Expression.Value)
+//@   ensures[C04] minus: err == nil && !e.IsAssign && !e.IsPlusAssign && e.IsMinusAssign ==> $asgN == old($asgN) + 1 && $asgVar == e.Variable && $asgVal == fn_EvaluateSubtraction_0($asgVarSnap[e.Variable], e.Expression.Value)
+//@   ensures[C04] mul: err == nil && !e.IsAssign && !e.IsPlusAssign && !e.IsMinusAssign && e.IsMulAssign ==> $asgN == old($asgN) + 1 && $asgVar == e.Variable && $asgVal == fn_EvaluateMultiplication_0($asgVarSnap[e.Variable], e.Expression.Value)
+//@   ensures[C04] div: err == nil && !e.IsAssign && !e.IsPlusAssign && !e.IsMinusAssign && !e.IsMulAssign && e.IsDivAssign ==> $asgN == old($asgN) + 1 && $asgVar == e.Variable && $asgVal == fn_EvaluateDivision_0($asgVarSnap[e.Variable], e.Expression.Value)
 //@   ensures[C04] atmostone: $asgN <= old($asgN) + 1
 //@   ensures[C04] failedearly: err != nil && $asgN == old($asgN) ==> $loc == old($loc)
 
 // statements of an action list run in textual order; the list stops at the first failing statement
 //@ func (e *ThenExpression) Execute(dataContext, memory) (err)
 //@   serves C04 C10
+//@   requires $depth == 0 && treeWF()
 //@   modifies @actions
 //@   ghost_entry $thenSeq = store($thenSeq, $thenN, e)
 //@   ghost_entry $thenN = $thenN + 1
@@ -416,6 +489,7 @@ package ast
 
 //@ func (e *ThenExpressionList) Execute(dataContext, memory) (err)
 //@   serves C04 C10 C14
+//@   requires $depth == 0 && treeWF()
 //@   modifies @actions, @thenlog
 //@   ensures[C04,C10] allinorder: err == nil ==> $thenN == old($thenN) + len(e.ThenExpressions) && (forall k int :: 0 <= k && k < len(e.ThenExpressions) ==> $thenSeq[old($thenN) + k] == e.ThenExpressions[k])
 //@   ensures[C04,C14] stopsatfirsterror: err != nil ==> old($thenN) < $thenN && $thenN <= old($thenN) + len(e.ThenExpressions) && (forall k int :: 0 <= k && k < $thenN - old($thenN) ==> $thenSeq[old($thenN) + k] == e.ThenExpressions[k])
@@ -427,3 +501,94 @@ package ast
 //@   invariant@1 forall k int :: 0 <= k && k < $i ==> $thenSeq[old($thenN) + k] == e.ThenExpressions[k]
 //@   invariant@1 forall re *RuleEntry :: old(re.Retracted) ==> re.Retracted
 //@   invariant@1 forall d Ref :: old($complete[d]) ==> $complete[d]
+
+// ---------------------------------------------------------------------------------------------------------
+// I1: the variable -> node index. Every expression / atom whose snapshot CONTAINS a variable's snapshot is filed
+// under that variable (two nested ranges over symbolic map orders).
+// ---------------------------------------------------------------------------------------------------------
+//@ extern func (workingMem *WorkingMemory) DebugContent() ()
+//@   nopanic
+//@ macro func idxComplete(m *WorkingMemory) bool { return
+//@      (forall vs string, xs string :: has(m.variableSnapshotMap, vs) && has(m.expressionSnapshotMap, xs) && str_contains(xs, vs) ==> inExprIdx(m, m.variableSnapshotMap[vs], m.expressionSnapshotMap[xs]))
+//@   && (forall vs string, as string :: has(m.variableSnapshotMap, vs) && has(m.expressionAtomSnapshotMap, as) && str_contains(as, vs) ==> inAtomIdx(m, m.variableSnapshotMap[vs], m.expressionAtomSnapshotMap[as])) }
+//@ func (workingMem *WorkingMemory) IndexVariables() ()
+//@   serves C01 C02
+//@   opt alloc=1
+//@   requires workingMem != nil
+//@   modifies WorkingMemory.expressionVariableMap, WorkingMemory.expressionAtomVariableMap, map[*Variable][]*Expression, map[*Variable][]*ExpressionAtom, alloc
+//@   ensures[C01,C02] complete: idxComplete(workingMem)
+//@   invariant@1 outerE: forall j int, xs string :: 0 <= j && j < $i && has(workingMem.expressionSnapshotMap, xs) && str_contains(xs, $keys[j]) ==> inExprIdx(workingMem, workingMem.variableSnapshotMap[$keys[j]], workingMem.expressionSnapshotMap[xs])
+//@   invariant@1 outerA: forall j int, as string :: 0 <= j && j < $i && has(workingMem.expressionAtomSnapshotMap, as) && str_contains(as, $keys[j]) ==> inAtomIdx(workingMem, workingMem.variableSnapshotMap[$keys[j]], workingMem.expressionAtomSnapshotMap[as])
+//@   invariant@1 mapsfresh: workingMem.expressionVariableMap != nil && workingMem.expressionAtomVariableMap != nil
+//@   invariant@2 outerE: forall j int, xs string :: 0 <= j && j < $i1 && has(workingMem.expressionSnapshotMap, xs) && str_contains(xs, $keys1[j]) ==> inExprIdx(workingMem, workingMem.variableSnapshotMap[$keys1[j]], workingMem.expressionSnapshotMap[xs])
+//@   invariant@2 innerE: forall j2 int :: 0 <= j2 && j2 < $i && str_contains($keys[j2], varSnapshot) ==> inExprIdx(workingMem, variable, workingMem.expressionSnapshotMap[$keys[j2]])
+//@   invariant@2 mapsfresh: workingMem.expressionVariableMap != nil && has(workingMem.expressionVariableMap, variable)
+//@   invariant@3 innerA: forall j2 int :: 0 <= j2 && j2 < $i && str_contains($keys[j2], varSnapshot) ==> inAtomIdx(workingMem, variable, workingMem.expressionAtomSnapshotMap[$keys[j2]])
+//@   invariant@3 outerA: forall j int, as string :: 0 <= j && j < $i1 && has(workingMem.expressionAtomSnapshotMap, as) && str_contains(as, $keys1[j]) ==> inAtomIdx(workingMem, workingMem.variableSnapshotMap[$keys1[j]], workingMem.expressionAtomSnapshotMap[as])
+//@   invariant@3 mapsfresh: workingMem.expressionAtomVariableMap != nil && has(workingMem.expressionAtomVariableMap, variable)
+
+// ---------------------------------------------------------------------------------------------------------
+// Forget / Changed -> WorkingMemory.Reset(name): a variable named exactly `name` has its index forgotten; otherwise every
+// expression / atom whose snapshot or text contains `name` is forgotten. Nothing else is forgotten (C13).
+// ---------------------------------------------------------------------------------------------------------
+//@ macro func namedVar(m *WorkingMemory, name string) bool { return exists k string :: has(m.variableSnapshotMap, k) && m.variableSnapshotMap[k] != nil && m.variableSnapshotMap[k].GrlText == name }
+//@ func (workingMem *WorkingMemory) Reset(name) (r)
+//@   serves C01 C02 C13
+//@   modifies Expression.Evaluated, ExpressionAtom.Evaluated
+//@   ensures[C01,C02] bytext: !namedVar(workingMem, name) ==> (forall k string :: has(workingMem.expressionSnapshotMap, k) && (str_contains(k, name) || str_contains(workingMem.expressionSnapshotMap[k].GrlText, name)) ==> !workingMem.expressionSnapshotMap[k].Evaluated)
+//@        && (forall k string :: has(workingMem.expressionAtomSnapshotMap, k) && (str_contains(k, name) || str_contains(workingMem.expressionAtomSnapshotMap[k].GrlText, name)) ==> !workingMem.expressionAtomSnapshotMap[k].Evaluated)
+//@   ensures[C01,C02] byvariable: namedVar(workingMem, name) ==> (exists v *Variable :: v != nil && v.GrlText == name && (forall x *Expression :: inExprIdx(workingMem, v, x) ==> !x.Evaluated) && (forall a *ExpressionAtom :: inAtomIdx(workingMem, v, a) ==> !a.Evaluated))
+//@   invariant@1 forall j int :: 0 <= j && j < $i && workingMem.variableSnapshotMap[$keys[j]] != nil ==> workingMem.variableSnapshotMap[$keys[j]].GrlText != name
+//@   invariant@2 forall j int :: 0 <= j && j < $i && (str_contains($keys[j], name) || str_contains(workingMem.expressionSnapshotMap[$keys[j]].GrlText, name)) ==> !workingMem.expressionSnapshotMap[$keys[j]].Evaluated
+//@   invariant@3 forall j int :: 0 <= j && j < $i && (str_contains($keys[j], name) || str_contains(workingMem.expressionAtomSnapshotMap[$keys[j]].GrlText, name)) ==> !workingMem.expressionAtomSnapshotMap[$keys[j]].Evaluated
+
+// one node per distinct snapshot text (C07 layer 1, C13): an existing resident with an equal snapshot is returned, else the argument is filed
+//@ extern func (e *Expression) GetSnapshot() (s)
+//@   isfunc
+//@   nopanic
+//@ extern func (e *ExpressionAtom) GetSnapshot() (s)
+//@   isfunc
+//@   nopanic
+//@ extern func (e *Variable) GetSnapshot() (s)
+//@   isfunc
+//@   nopanic
+//@ extern pure func fn_GetSnapshot_0(n Ref) string
+//@ func (workingMem *WorkingMemory) AddExpression(exp) (r)
+//@   serves C07 C13
+//@   requires workingMem != nil && workingMem.expressionSnapshotMap != nil
+//@   nopanic
+//@   modifies map[string]*Expression
+//@   ensures old(has(workingMem.expressionSnapshotMap, fn_GetSnapshot_0(exp))) ==> r == old(workingMem.expressionSnapshotMap[fn_GetSnapshot_0(exp)]) && (forall k string :: has(workingMem.expressionSnapshotMap, k) == old(has(workingMem.expressionSnapshotMap, k)) && workingMem.expressionSnapshotMap[k] == old(workingMem.expressionSnapshotMap[k]))
+//@   ensures !old(has(workingMem.expressionSnapshotMap, fn_GetSnapshot_0(exp))) ==> r == exp && workingMem.expressionSnapshotMap[fn_GetSnapshot_0(exp)] == exp && has(workingMem.expressionSnapshotMap, fn_GetSnapshot_0(exp))
+//@        && (forall k string :: k != fn_GetSnapshot_0(exp) ==> has(workingMem.expressionSnapshotMap, k) == old(has(workingMem.expressionSnapshotMap, k)) && workingMem.expressionSnapshotMap[k] == old(workingMem.expressionSnapshotMap[k]))
+//@ func (workingMem *WorkingMemory) AddExpressionAtom(exp) (r)
+//@   serves C07 C13
+//@   requires workingMem != nil && workingMem.expressionAtomSnapshotMap != nil
+//@   nopanic
+//@   modifies map[string]*ExpressionAtom
+//@   ensures old(has(workingMem.expressionAtomSnapshotMap, fn_GetSnapshot_0(exp))) ==> r == old(workingMem.expressionAtomSnapshotMap[fn_GetSnapshot_0(exp)]) && (forall k string :: has(workingMem.expressionAtomSnapshotMap, k) == old(has(workingMem.expressionAtomSnapshotMap, k)) && workingMem.expressionAtomSnapshotMap[k] == old(workingMem.expressionAtomSnapshotMap[k]))
+//@   ensures !old(has(workingMem.expressionAtomSnapshotMap, fn_GetSnapshot_0(exp))) ==> r == exp && workingMem.expressionAtomSnapshotMap[fn_GetSnapshot_0(exp)] == exp && has(workingMem.expressionAtomSnapshotMap, fn_GetSnapshot_0(exp))
+//@        && (forall k string :: k != fn_GetSnapshot_0(exp) ==> has(workingMem.expressionAtomSnapshotMap, k) == old(has(workingMem.expressionAtomSnapshotMap, k)) && workingMem.expressionAtomSnapshotMap[k] == old(workingMem.expressionAtomSnapshotMap[k]))
+//@ func (workingMem *WorkingMemory) AddVariable(vari) (r)
+//@   serves C07 C13
+//@   requires workingMem != nil && workingMem.variableSnapshotMap != nil
+//@   nopanic
+//@   modifies map[string]*Variable
+//@   ensures old(has(workingMem.variableSnapshotMap, fn_GetSnapshot_0(vari))) ==> r == old(workingMem.variableSnapshotMap[fn_GetSnapshot_0(vari)]) && (forall k string :: has(workingMem.variableSnapshotMap, k) == old(has(workingMem.variableSnapshotMap, k)) && workingMem.variableSnapshotMap[k] == old(workingMem.variableSnapshotMap[k]))
+//@   ensures !old(has(workingMem.variableSnapshotMap, fn_GetSnapshot_0(vari))) ==> r == vari && workingMem.variableSnapshotMap[fn_GetSnapshot_0(vari)] == vari && has(workingMem.variableSnapshotMap, fn_GetSnapshot_0(vari))
+//@        && (forall k string :: k != fn_GetSnapshot_0(vari) ==> has(workingMem.variableSnapshotMap, k) == old(has(workingMem.variableSnapshotMap, k)) && workingMem.variableSnapshotMap[k] == old(workingMem.variableSnapshotMap[k]))
+
+// built-in functions with a control effect (C10) or a memo effect (C01/C02)
+//@ func (gf *BuiltInFunctions) Retract(ruleName) ()
+//@   serves C10
+//@   requires gf != nil && gf.Knowledge != nil
+//@   modifies RuleEntry.Retracted
+//@   ensures forall re *RuleEntry :: old(re.Retracted) ==> re.Retracted
+//@   ensures forall re *RuleEntry :: re.RuleName != ruleName ==> re.Retracted == old(re.Retracted)
+//@   ensures forall k string :: has(gf.Knowledge.RuleEntries, k) && gf.Knowledge.RuleEntries[k] != nil && gf.Knowledge.RuleEntries[k].RuleName == ruleName ==> gf.Knowledge.RuleEntries[k].Retracted
+//@ func (gf *BuiltInFunctions) Complete() ()
+//@   serves C10
+//@   requires gf != nil && gf.DataContext != nil
+//@   modifies $complete
+//@   ensures $complete[gf.DataContext]
+//@   ensures forall d Ref :: old($complete[d]) ==> $complete[d]
